@@ -371,7 +371,15 @@ def same_type(got, exp):
     if e is not None:
         g = elem_of(got) if got is not Any else None
         return g is not None and same_type(g, e)
-    return got == exp
+    if got == exp:
+        return True
+    # generic aliases: the same class with arguments that are the same types (typing.Iterable[X] and collections.abc.Iterable[X] are
+    # two spellings of one type, also as an argument of another alias)
+    go, eo = typing.get_origin(got), typing.get_origin(exp)
+    ga, ea = typing.get_args(got), typing.get_args(exp)
+    if go is not None and go is eo and len(ga) == len(ea) and ga:
+        return all(same_type(x, y) if y is not Any else x is Any for x, y in zip(ga, ea))
+    return False
 
 
 NS = {}
